@@ -35,6 +35,9 @@ def check(ctx, rule, mod, only=None):
             n += 1
             if p in used or (mod.name, q, p) in EXCEPTIONS:
                 continue
+            # a listed placeholder that was given the conventional 'unused' spelling (_name) is still the same placeholder
+            if p.startswith('_') and (mod.name, q, p.lstrip('_')) in EXCEPTIONS:
+                continue
             ctx.violated(rule, '%s:%s#unused-parameter[%s]' % (mod.relpath.replace('pyerrors/', ''), q, p),
                          '%s accepts the parameter `%s` but never reads it: the caller\'s value is silently ignored' % (q, p), mod.loc(f))
     ctx.holds(rule, '%s#parameters-read' % mod.relpath.replace('pyerrors/', ''), '%d parameters of %s are all read (or listed placeholders)' % (n, mod.relpath))
